@@ -3,6 +3,7 @@ package rag
 import (
 	"fmt"
 	"strings"
+	"unicode/utf8"
 )
 
 // SizeUnit defines the unit of measurement for chunk sizes
@@ -496,7 +497,32 @@ func findWordBoundaryNear(text string, targetPos int) int {
 		}
 	}
 
-	return targetPos
+	return runeBoundaryNear(text, targetPos)
+}
+
+// runeBoundaryNear moves a raw byte offset off the middle of a multi-byte
+// character so that splitting there cannot produce invalid UTF-8. It returns
+// the start of the character containing pos, or the end of that character if
+// it is the first one in text (so the split still makes progress).
+func runeBoundaryNear(text string, pos int) int {
+	if pos <= 0 || pos >= len(text) || utf8.RuneStart(text[pos]) {
+		return pos
+	}
+
+	start := pos - 1
+	for start > 0 && pos-start < utf8.UTFMax-1 && !utf8.RuneStart(text[start]) {
+		start--
+	}
+
+	_, size := utf8.DecodeRuneInString(text[start:])
+	if start+size <= pos {
+		// pos is not inside a well-formed character; nothing to protect
+		return pos
+	}
+	if start > 0 {
+		return start
+	}
+	return size
 }
 
 // isSentenceEndChar checks if a character typically ends a sentence
